@@ -961,7 +961,8 @@ func (C16) Shrink(c kernel.Case) []kernel.Case {
 	if d.Kind == "args" {
 		return nil
 	}
-	return shrinkScenario(&d.Scenario, func(s Scenario) kernel.Case {
+	fixed := d.Kind == "order" || d.Kind == "stream" || d.Kind == "slurp-equiv" || d.Kind == "raw"
+	return shrinkScenario(&d.Scenario, fixed, func(s Scenario) kernel.Case {
 		e := d
 		e.Scenario = s
 		if d.Kind == "stream" {
